@@ -155,7 +155,7 @@ pub fn project_modules(generated: &str) -> Result<Vec<(String, String)>, String>
                     let ty = strip_ws(&crate::proj::ts(&s.ty));
                     let init = strip_ws(&crate::proj::ts(&s.expr));
                     match (ty.strip_prefix("LazyLock<").and_then(|r| r.strip_suffix('>')), init.strip_prefix("LazyLock::new(||").and_then(|r| r.strip_suffix(')'))) {
-                        (Some(t), Some(e)) => items.push(format!("( lazy {} {} {} f )", hex(&s.ident.to_string()), hex(t), hex(e))),
+                        (Some(t), Some(e)) => items.push(format!("( lazy {} {} {} f )", hex(&s.ident.to_string()), hex(&format!("{}{}", static_head(&s), t)), hex(e))),
                         _ => items.push(format!("( other {} )", hex(&crate::proj::ts(s)))),
                     }
                 }
@@ -163,7 +163,13 @@ pub fn project_modules(generated: &str) -> Result<Vec<(String, String)>, String>
                     // lazy_static! { #comments pub static ref NAME: T = e; }
                     let inner = mac.mac.tokens.to_string().replacen("static ref ", "static ", 1);
                     match syn::parse_str::<syn::ItemStatic>(&inner) {
-                        Ok(s) => items.push(format!("( lazy {} {} {} t )", hex(&s.ident.to_string()), hex(&strip_ws(&crate::proj::ts(&s.ty))), hex(&strip_ws(&crate::proj::ts(&s.expr))))),
+                        Ok(s) if mac.attrs.is_empty() => items.push(format!("( lazy {} {} {} t )", hex(&s.ident.to_string()), hex(&format!("{}{}", static_head(&s), strip_ws(&crate::proj::ts(&s.ty)))), hex(&strip_ws(&crate::proj::ts(&s.expr))))),
+                        Ok(s) => {
+                            // attributes in front of the macro invocation: they belong to the static all the same
+                            let mut s = s;
+                            s.attrs = mac.attrs.iter().cloned().chain(s.attrs.into_iter()).collect();
+                            items.push(format!("( lazy {} {} {} t )", hex(&s.ident.to_string()), hex(&format!("{}{}", static_head(&s), strip_ws(&crate::proj::ts(&s.ty)))), hex(&strip_ws(&crate::proj::ts(&s.expr)))))
+                        }
                         Err(_) => items.push(format!("( other {} )", hex(&crate::proj::ts(mac)))),
                     }
                 }
@@ -173,6 +179,11 @@ pub fn project_modules(generated: &str) -> Result<Vec<(String, String)>, String>
         mods.push((norm_mod(&m.ident.to_string()), format!("( {} {} {} )", hex(&m.ident.to_string()), sx_list(uses), sx_list(items))));
     }
     Ok(mods)
+}
+
+/// visibility and attributes (doc comments) of a static: part of what has to be the same under every configuration
+fn static_head(s: &syn::ItemStatic) -> String {
+    format!("{}{}|", strip_ws(&crate::proj::ts(&s.vis)), s.attrs.iter().map(|a| strip_ws(&crate::proj::ts(a))).collect::<String>())
 }
 
 pub fn gen_inputs(cfg: &RunCfg) -> Vec<Vec<M>> {
@@ -207,6 +218,13 @@ pub fn gen_inputs(cfg: &RunCfg) -> Vec<Vec<M>> {
                 md.defs.push(D { text: format!("{rc} ::= CHOICE {{ and SEQUENCE OF {rc}, not {rc}, leaf INTEGER (0..7), other BOOLEAN }}"), name: rc, kind: Kind::Type, shape: "ChoM".into(), refs: vec![], fault: None });
                 let key = format!("Key{set}x{m}e");
                 md.defs.push(D { text: format!("{key} ::= CHOICE {{ by-name UTF8String, num INTEGER (0..7), big INTEGER, flag BOOLEAN }}"), name: key.clone(), kind: Kind::Type, shape: "ChoM".into(), refs: vec![], fault: None });
+                // a defined type whose name begins like `Vec`, list values of it and of a built-in SEQUENCE OF, and values
+                // with an ASN.1 comment in front (it becomes the doc comment of the static)
+                let vecn = format!("Vector{set}x{m}e");
+                md.defs.push(D { text: format!("{vecn} ::= SEQUENCE OF INTEGER"), name: vecn.clone(), kind: Kind::Type, shape: "Lof".into(), refs: vec![], fault: None });
+                md.defs.push(D { text: format!("-- the origin\n-- of everything\norigin{set}x{m}e {vecn} ::= {{ 1, 2 }}"), name: format!("origin{set}x{m}e"), kind: Kind::Value, shape: "vLof".into(), refs: vec![vecn], fault: None });
+                md.defs.push(D { text: format!("/* documented */\nbig{set}x{m}e INTEGER ::= 99999999999999999999"), name: format!("big{set}x{m}e"), kind: Kind::Value, shape: "vint".into(), refs: vec![], fault: None });
+                md.defs.push(D { text: format!("-- a text\ntxt{set}x{m}e UTF8String ::= \"abc\""), name: format!("txt{set}x{m}e"), kind: Kind::Value, shape: "vstr".into(), refs: vec![], fault: None });
                 for (vi, v) in ["by-name : \"hello\"", "num : 5", "big : 99999999999999999999", "flag : TRUE"].iter().enumerate() {
                     let vn = format!("kv{set}x{m}x{vi}e");
                     md.defs.push(D { text: format!("{vn} {key} ::= {v}"), name: vn, kind: Kind::Value, shape: "vCho".into(), refs: vec![key.clone()], fault: None });
